@@ -1,5 +1,6 @@
 import GoPlugin.Lemmas.MuxBroker
 import GoPlugin.Lemmas.MuxBrokerFrame
+import GoPlugin.Model.MuxFrame
 /-
 C06 — MuxBroker connects Dial(id) only to Accept(id).
 
@@ -132,5 +133,56 @@ def busyTrace : List Event :=
 example : ∃ s, runFrom pGood init busyTrace = some s ∧ s.map 9 = none ∧ s.run = .idle ∧ s.queue = [] ∧
     (s.accs 1).map (·.pc) = some (.took 0) := by
   refine ⟨(runFrom pGood init busyTrace).get (by decide), by simp, by decide, by decide, by decide, by decide⟩
+
+/-! ### Bytes: complete and in order (the stream is handed on untouched) -/
+
+section Frame
+open MuxFrame
+
+private theorem take_drop_glue {α : Type} (l : List α) (n k : Nat) :
+    (l.take (n + k)).drop n ++ l.drop (n + k) = l.drop n := by
+  induction n generalizing l with
+  | zero => simp
+  | succ n ih =>
+    cases l with
+    | nil => simp
+    | cons a t =>
+      have : n + 1 + k = (n + k) + 1 := by omega
+      rw [this]
+      simpa using ih t
+
+/-- **Nothing the peer wrote after its header is lost or reordered**: whatever part of the peer's bytes had
+already arrived when go-plugin read the 4-byte header (any split of the peer's output into "arrived" and
+"later", for any header and any application bytes), the application reads exactly the peer's application bytes. -/
+theorem app_bytes_complete (P : MuxFrame.Params) (hP : P.Good) (hdr app : Bytes) (hh : hdr.length = 4) (k : Nat) :
+    readHeader P ((sent hdr app).take (4 + k)) ((sent hdr app).drop (4 + k)) = some (hdr, app) := by
+  obtain ⟨hE, _⟩ := hP
+  unfold readHeader sent
+  have h4 : ¬ ((hdr ++ app).take (4 + k)).length < 4 := by
+    rw [List.length_take, List.length_append, hh]; omega
+  simp only [h4, if_false, hE, if_true]
+  have e1 : ((hdr ++ app).take (4 + k)).take 4 = hdr := by
+    rw [List.take_take]
+    have : min 4 (4 + k) = 4 := by omega
+    rw [this, ← hh]; simp
+  have e2 : ((hdr ++ app).take (4 + k)).drop 4 ++ (hdr ++ app).drop (4 + k) = app := by
+    rw [take_drop_glue, ← hh]; simp
+  rw [e1, e2]
+
+/-- a write on a brokered connection never fails because of a deadline go-plugin left on it -/
+theorem late_write_completes (P : MuxFrame.Params) (hP : P.Good) (w : Bool) : lateWrite P w = true := by
+  simp [lateWrite, hP.2]
+
+/-- reading the ack through a throw-away read-ahead buffer swallows what the acceptor wrote right behind it:
+ack `7,0,0,0` and greeting `104,105` arriving in one burst — the application sees nothing -/
+theorem readahead_witness :
+    readHeader ⟨false, true⟩ [7, 0, 0, 0, 104, 105] [] = some ([7, 0, 0, 0], []) := by decide
+
+/-- a write deadline left on the accepted connection makes a later window-bound write fail -/
+theorem deadline_left_witness : lateWrite ⟨true, false⟩ true = false := by decide
+
+example : readHeader ⟨true, true⟩ [7, 0, 0, 0, 104, 105] [33] = some ([7, 0, 0, 0], [104, 105, 33]) := by decide
+
+end Frame
 
 end GoPlugin.Props.C06
